@@ -294,6 +294,8 @@ func runC17(c *kit.Ctx) {
 	}
 
 	// ---- R4 threading ---------------------------------------------------------
+	firstWaitPrecedesTheFirstRetry(c)
+
 	c.StartRule("R4", "the loop threads the returned back-off and leaves on its error", 8)
 	lookupContexts(c)
 	for _, fn := range p.Funcs {
